@@ -5,7 +5,7 @@ P=$1; shift
 cd /verif
 [ -z "$(git -C /repo status --porcelain --untracked-files=no)" ] || { echo "/repo is dirty"; exit 2; }
 git -C /repo apply "$P" || { echo "patch does not apply"; exit 2; }
-trap 'git -C /repo checkout -- . ; echo "(reverted /repo)"' EXIT
+trap 'git -C /repo checkout -- . ; git -C /verif checkout -- evidence ; echo "(reverted /repo, restored evidence)"' EXIT
 for id in "$@"; do
   echo "=== $id on $(basename $(dirname $P))"
   ./bin/verifsim check $id --tier quick > /tmp/mutcheck-$id.log 2>&1; rc=$?
